@@ -5,7 +5,7 @@ use crate::util::{self, Rng};
 use crate::wf::{self, ClassPlan as CP};
 use crate::{c17x, Args};
 
-const CLASS_DOC: &str = "Cases are (program, initial state, history) triples: seeded random well-formed task programs (<=10 scripted tasks with value-dependent require/read/write structure over <=6 integer cell resources, checker kinds Exact/Parity/Exists/Always on reads and writes and Exact/Parity/Always on requires) driven through 6-12 builds with 0-3 external changes in between, plus a curated library of hostile shapes. ";
+const CLASS_DOC: &str = "Cases are (program, initial state, history) triples: seeded random well-formed task programs (2-6 scripted tasks, a quarter up to 10, a tenth up to 16, with value-dependent require/read/write structure over <=6 integer cell resources, checker kinds Exact/Parity/Exists/Always on reads and writes and Exact/Parity/Always on requires) driven through 6-12 builds with 0-3 external changes in between, plus a curated library of hostile shapes. ";
 
 /// Adds the exhaustive small-scope leg (all histories of the given lengths over the curated shapes).
 fn with_exhaustive(mut r: Report, which: &'static str, t: &str, s: u64, replay: &Option<(String, u64)>) -> Report {
